@@ -412,3 +412,15 @@ def r7_builder(ctx: Ctx) -> None:
                                f"({ast.unparse(tab)[:60]}): those terms never pass through Expr.__add__, so a negative or zero multiple is stored as it is "
                                "and the normal form (positive coefficients, one polarity per variable) is lost", lineno=c.lineno)
     ctx.require(n >= 2, f"constructions Expr(c, table) fewer than confirmed ({n})")
+
+
+@rule("C16", "R8.diagram-of-an-inequality", "SHARED(C07)",
+      "a built inequality says what the direct comparison says also as a decision diagram: constructrobdd (the construction "
+      "Ineq.getrobdd hands the normalised terms to) branches on each term in order, links the taken branch to the 'then' child and "
+      "the other to the 'else' child, and shares nodes through the full (variable, then, else) key -- the C07 rules R2 / R3 "
+      "evaluated for the function the algebra calls (seeded change C16-9: a 'skip redundant test' shortcut linking both sides "
+      "to the then-grandchild)", floor=2)
+def shared_diagram(ctx: Ctx) -> None:
+    from . import C07 as _c07
+    from .common import support
+    support(ctx, [_c07.r2, _c07.r3], {"constructrobdd"})
